@@ -57,9 +57,39 @@ THEOREMS = [
      "exists r s, send hardcoded_error_body (fun h => h) M_GET r = Ok s /\\ r0_status r = 204 /\\ r0_body r <> [] /\\ "
      "parse_responses [M_GET] (wire s) = None"),
 ]
-RULE = ""
-ASSUMPTIONS = []
-TRUSTED = []
+RULE = ("(a) histories of 1-12 requests on ONE loopback connection handled by the public kvarn::handle_connection (thorough: also by a "
+        "RunConfig::execute server on a loopback port), each request sent after the previous response was read: GET/HEAD/POST/OPTIONS/PUT x "
+        "existing files (20 B, 3 kB, empty, index.html, in a directory) / missing / '/' / unsafe path / 12 handler-backed paths (static, "
+        "compressible, 204, 500, counter, echo, body readers read_to_bytes(1000) and (5), handlers that set connection: close / upgrade or a "
+        "false content-length) x Accept-Encoding (gzip, br, zstd, identity, *, q-values) x Range (satisfiable, single byte, open, beyond the "
+        "end, reversed, other unit) x If-Modified-Since (fresh, stale, garbage) x Origin x response cache on/off x default extensions on/off x "
+        "limiter off / max 4-6 (429 answers) x request bodies of 0..70000 bytes read / read in part / unread, arriving with the head, after it, "
+        "or split; HEAD/GET pairs of one resource; an unknown Host (409 + close) as last request. EVERY byte received is given to the extracted "
+        "Coq parse_responses (oracle: exactly one well-formed response per request, in order, nothing left over, connection still usable, HEAD "
+        "announces GET's length) and the parsed list is compared with the model's prediction (version, status, reason, content-range, "
+        "accept-ranges, connection, x-tag, reason headers, body; for a content-coded answer the decoded body, and only the framing when a "
+        "range of a coded representation was asked; answers of the CORS / 406 machinery are framed but not predicted). (b) kvarn_async::write::"
+        "response called directly on random version/status/headers/body against print_response, byte for byte. distinct_nontrivial counts "
+        "distinct model outputs")
+ASSUMPTIONS = [
+    "theorems: what handle_cache returns satisfies the http crate's invariants (status 100..999, lower-case token names, values without "
+    "CR/LF, no transfer-encoding, not HTTP/0.9), a 1xx/204/304 reply has an empty body (bodyless_status_with_body_refuted shows kvarn sends "
+    "a handler's 204 body), the range comes from sanitize_request (start < end); Package extensions leave version, status and "
+    "content-length alone and add no transfer-encoding; Post extensions and streaming futures (with_future: WebSocket, SSE) write nothing "
+    "to the body pipe - responses with a future are outside the model",
+    "the client of the connection theorem is 'polite': configured Host, not beyond the limiter's drop level (3 x max_requests: the "
+    "connection is closed by design, C12), and it sends exactly the body its request declares, where the declared length is kvarn's "
+    "get_body_length_request: 0 for GET/HEAD/OPTIONS/CONNECT/TRACE whatever content-length says (a GET that carries a body is outside)",
+    "the request reader (kvarn_async::read::request) is C07's; here a request is a parsed head plus body bytes with an early/late split",
+    "the executable prediction reuses Model/Cache.v + Model/Fixture.v (C03/C04) for handle_cache; content negotiation is not predicted "
+    "(the harness decodes coded bodies with flate2/brotli/zstd), last-modified / vary / cache-control / content-type are not compared",
+]
+TRUSTED = ["modelled: async/src/lib.rs write::response; src/lib.rs SendKind::send (range, ensure_length, ensure_version, resolve_package, body "
+           "rule), handle_connection request loop (409, limiter Send/Drop, sequential HTTP/1 handling, drain); src/application.rs "
+           "ResponsePipe::send_response (connection header), ensure_length/ensure_version, Http1Body::{read_to_bytes accounting, drain}; "
+           "utils set_content_length, method_has_response_body, get_body_length_request, hardcoded_error_body; http::StatusCode::canonical_reason table",
+           "the second stage of the run (driver/props/c08.py) hands the harness's raw bytes to the extracted parser; the harness's own "
+           "lenient framing only paces the requests"]
 EXHAUSTIVE = False
 IMPL_SHARDS = 16
 PER_SHARD = 8
@@ -388,7 +418,10 @@ def main(tier, seed, replay):
         kv.run_cases = orig
 
 
-LEVEL_TEXT = ""
-LEVEL_NOTE = ""
+LEVEL_TEXT = ("proved for all response sequences / all histories of the connection model: strict-client round trip, content-length = bytes "
+              "written, HEAD = GET's head without body, one response per request in order, fate of an unread request body; the model is "
+              "tied to kvarn by the differential run on every check")
+LEVEL_NOTE = ("two defects repaired on the way (unread late request body desynchronised the connection; 429/409 answers to HEAD carried a "
+              "body); the pre-repair behaviour is kept as refutation witnesses replayed on the real code")
 TECHNIQUE = ("Coq proof (printer/strict-parser round trip for all response sequences; send-path and connection-loop invariants) + "
              "differential correspondence model vs. implementation, every received byte parsed by the extracted Coq parser")
